@@ -452,3 +452,32 @@ func valueLeaves(v ssa.Value) []ssa.Value {
 	walk(v, 0)
 	return out
 }
+
+// initAlias: a load of a local that is captured by a function literal, initialised where it is
+// declared and never assigned again stands for its initialiser (facts.InitOnlyCell); other values
+// are returned unchanged. Used where a rule compares a value with a fixed access path and the
+// code merely went through such a local.
+func initAlias(v ssa.Value) ssa.Value {
+	for k := 0; k < 3; k++ {
+		u, ok := strip(v).(*ssa.UnOp)
+		if !ok || u.Op != token.MUL {
+			return v
+		}
+		var cell *ssa.Alloc
+		switch a := u.X.(type) {
+		case *ssa.Alloc:
+			cell = a
+		case *ssa.FreeVar:
+			cell = facts.CellOfFreeVar(a, 0)
+		}
+		if cell == nil {
+			return v
+		}
+		iv := facts.InitOnlyCell(cell)
+		if iv == nil {
+			return v
+		}
+		v = iv
+	}
+	return v
+}
